@@ -4,7 +4,7 @@ allocation, observations) preserve the invariant; assembly for `step`.
 -/
 import PsdVerif.Lemmas.TreeStep
 
-namespace PsdVerif.Tree
+namespace PsdVerif.TreeSt
 
 theorem then_append_adds (cfg : Cfg) (s : State) (r1 : State × Out) (g x : Id) (o : Out) (h1 : Adds s r1.1 g [x]) :
     Adds s (if r1.2.isError = true then r1
@@ -227,4 +227,4 @@ theorem inv_opSetOffset {cfg : Cfg} {s : State} (i : Inv s) (x : Id) (h : Bool) 
   · refine SameStruct.inv (s := invUp cfg s x) ?_ ((invUp_same cfg s x).inv i)
     exact ⟨rfl, rfl, rfl, rfl, rfl⟩
 
-end PsdVerif.Tree
+end PsdVerif.TreeSt
